@@ -15,6 +15,7 @@ TYPES = ["buf", "and", "or", "xor", "not", "nand", "nor", "xnor", "0", "1", "x",
 TS = {t: i for i, t in enumerate(TYPES)}
 UNSUPPORTED = len(TYPES)  # a type string that is not supported ("bogus")
 MISSING = len(TYPES) + 1  # node without a type attribute
+NONSTR = len(TYPES) + 2  # type attribute is not a string but prints like a supported type (the int 0)
 BOGUS = "bogus_type"
 
 
@@ -97,6 +98,8 @@ class Attr:
         if k == "type":
             if g.o.decide(g.T[n] == MISSING):
                 raise KeyError(k)
+            if g.allow_nonstr and g.o.decide(g.T[n] == NONSTR):
+                return 0  # a concrete non-string type value
             if g.pin_types:
                 return SymType(g.o, g.T[n]).pin()  # fall-back mode: a plain str (the type is decided as soon as it is read)
             return SymType(g.o, g.T[n])
@@ -173,6 +176,7 @@ class SymDiGraph:
         self.created = []  # names outside U that were added, in order
         self.graph = {}
         self.pin_types = False
+        self.allow_nonstr = False
         self.OM = None  # optional: name -> Bool "the node has no `output` attribute"
 
     # ---------------------------------------------------------------- symbolic state accessors (z3 terms)
@@ -344,6 +348,7 @@ class SymDiGraph:
         g.wnode, g.fresh, g.wattr, g.wedge = dict(self.wnode), set(self.fresh), dict(self.wattr), dict(self.wedge)
         g.created = list(self.created)
         g.pin_types = self.pin_types
+        g.allow_nonstr = self.allow_nonstr
         g.OM = self.OM
         return g
 
@@ -364,7 +369,7 @@ def base_pre(vars_, types=None, dag_order=None):
         if types is None:
             cs.append(z3.And(T[n] >= 0, T[n] < len(TYPES)))
         else:
-            cs.append(z3.Or([T[n] == (TS[t] if t in TS else {"UNSUPPORTED": UNSUPPORTED, "MISSING": MISSING}[t]) for t in types]))
+            cs.append(z3.Or([T[n] == (TS[t] if t in TS else {"UNSUPPORTED": UNSUPPORTED, "MISSING": MISSING, "NONSTR": NONSTR}[t]) for t in types]))
     for (u, v), e in E.items():
         cs.append(z3.Implies(e, z3.And(P[u], P[v])))
         if dag_order is not None and dag_order.index(u) >= dag_order.index(v):
@@ -507,6 +512,8 @@ def materialize(vars_, model, bbs=None, name="sym", OM=None):
                 attrs["type"] = TYPES[ti]
             elif ti == UNSUPPORTED:
                 attrs["type"] = BOGUS
+            elif ti == NONSTR:
+                attrs["type"] = 0
             if OM is None or not z3.is_true(mval(model, OM[n])):
                 attrs["output"] = z3.is_true(mval(model, O[n]))
             g.add_node(n, **attrs)
@@ -522,7 +529,7 @@ def post_state(g, model):
     for n in g.names():
         if z3.is_true(mval(model, g.present(n))):
             ti = mval(model, g.type_term(n)).as_long()
-            t = TYPES[ti] if ti < len(TYPES) else (BOGUS if ti == UNSUPPORTED else None)
+            t = TYPES[ti] if ti < len(TYPES) else (BOGUS if ti == UNSUPPORTED else (0 if ti == NONSTR else None))
             nodes[n] = (t, z3.is_true(mval(model, g.output_term(n))))
     for u in nodes:
         for v in nodes:
